@@ -6,6 +6,7 @@ import (
 	"reflect"
 	"sort"
 	"sync"
+	"syscall"
 )
 
 // MapKeys returns the keys of m in a canonical (sorted) order so that map
@@ -238,4 +239,68 @@ func PoolPut(p *sync.Pool, x any) {
 	st := poolOf(p)
 	st.items = append(st.items, x)
 	poolMu.Unlock()
+}
+
+// ---- OS resources -------------------------------------------------------------------------------
+// A killed incarnation never closes its files or unmaps its tables, and the parked goroutines of a run keep
+// them reachable for the life of the worker process. Everything the code under test opens or maps is
+// registered here and released by core.Execute when the run is over (nothing of the run executes afterwards).
+
+var (
+	resMu    sync.Mutex
+	resFiles []*os.File
+	resMaps  = map[*byte][]byte{}
+)
+
+func trackFile(f *os.File, err error) (*os.File, error) {
+	if err == nil {
+		resMu.Lock()
+		resFiles = append(resFiles, f)
+		resMu.Unlock()
+	}
+	return f, err
+}
+
+func OpenFile(name string, flag int, perm os.FileMode) (*os.File, error) {
+	return trackFile(os.OpenFile(name, flag, perm))
+}
+func Open(name string) (*os.File, error)   { return trackFile(os.Open(name)) }
+func Create(name string) (*os.File, error) { return trackFile(os.Create(name)) }
+
+func Mmap(fd int, offset int64, length, prot, flags int) ([]byte, error) {
+	b, err := syscall.Mmap(fd, offset, length, prot, flags)
+	if err == nil && len(b) > 0 {
+		resMu.Lock()
+		resMaps[&b[0]] = b
+		resMu.Unlock()
+	}
+	return b, err
+}
+
+func Munmap(b []byte) error {
+	if len(b) > 0 {
+		resMu.Lock()
+		delete(resMaps, &b[0])
+		resMu.Unlock()
+	}
+	return syscall.Munmap(b)
+}
+
+// ReleaseResources closes every file and removes every mapping that the finished run left behind.
+func ReleaseResources() (files, maps int) {
+	resMu.Lock()
+	defer resMu.Unlock()
+	for _, f := range resFiles {
+		if f.Close() == nil {
+			files++
+		}
+	}
+	resFiles = nil
+	for k, b := range resMaps {
+		if syscall.Munmap(b) == nil {
+			maps++
+		}
+		delete(resMaps, k)
+	}
+	return
 }
